@@ -27,7 +27,7 @@ DEFAULT_PROFILE = dict(
     party={"scripted": 4, "uncontrolled": 2, "greedy": 2, "rr": 1},
     sorts=["fcfs", "lcfs", "edf", "llf", "lrpt"],
     max_recompute=[None, None, 1, 1, 2, 3, 7],
-    periods=[1, 5, 5, 5, 7.5, 15, 15, 60, 0.5, 2.5, 4.1, 0.125],
+    periods=[1, 5, 5, 5, 7.5, 15, 15, 60, 0.5, 2.5, 4.1, 0.125, 7, 8],
     extra_recompute=0.4,
     vacant_pilots=0.5,
     sid_mode={"plain": 3, "crossed": 1, "numeric": 0.4},
@@ -88,7 +88,9 @@ def _gen_evse(r, kind):
                 "max": r.choice([16, 32, 32, 48, round(r.uniform(12, 80), 1)])}
     if kind == "finite":
         mode = r.random()
-        if mode < 0.3:
+        if mode < 0.05:
+            rates = [0] + [0.5 * k_ for k_ in range(12, 12 + r.choice([40, 60, 100]))]     # a fine-grained EVSE: dozens of levels
+        elif mode < 0.3:
             rates = [0] + list(range(6, 33))
         elif mode < 0.5:
             rates = [0, 8, 16, 24, 32]
